@@ -62,10 +62,10 @@ def py_eval(case):
 
 class C01(core.Prop):
     ID = 'C01'
-    IMPORTS = 'From FV Require Import Lib.Sym Model.C01 Model.C01Compile.'
-    CASE_TYPE = 'C01Compile.fcase'
-    CHECK_FUN = 'C01Compile.check_fcase_wf'
-    EXTRA_TARGETS = ['Model/C01.vo', 'Model/C01Compile.vo', 'Lib/Corr.vo']
+    IMPORTS = 'From FV Require Import Lib.Sym Model.C01 Model.C01Compile Model.C01Each.'
+    CASE_TYPE = 'C01Each.ecase'
+    CHECK_FUN = 'C01Each.check_ecase'
+    EXTRA_TARGETS = ['Model/C01.vo', 'Model/C01Compile.vo', 'Model/C01Each.vo', 'Lib/Corr.vo']
     RULE = (
         'random well-formed segments of 3-9 nodes: a source, stateless workers with 1-2 inputs and 1-3 outputs (unused '
         'ports allowed), stateful groups with one trained member fed on train/label from arbitrary upstream ports and 0-2 '
@@ -75,13 +75,14 @@ class C01(core.Prop):
         'an independent interpreter; sink term, committed states and loaded offsets are compared with the denotation. The '
         'emitted table itself (instruction kinds, owner nodes, preset flags, argument positions, emission order) must equal '
         'the output of the Gallina compiler model under the recorded Table.add order, be accepted by the proved validator, '
-        'and evaluate inside Coq to the same sink term. '
+        'and evaluate inside Coq to the same sink term; the recorded order of Table.add calls must equal the modelled '
+        'Traversal.each element for element. '
         'Non-trivial = a multi-output node or a fork group with applied members.'
     )
     ASSUMPTIONS = [
         'actors are uninterpreted symbols (free terms): equality of terms implies equality under every payload and actor function',
         'the compiler internals (Linkage, Index, alias merge, stub pruning) are modelled executably (Model/C01Compile.v) and tied by symbol-for-symbol comparison; acceptance of the model output by the validator is computed per case, not proved for all graphs',
-        'the traversal order (Traversal.each over hash-ordered subscription sets) is recorded from the real run and is an input of the compiler model',
+        'the traversal order (Traversal.each: depth-first over ordered subscription lists) is recorded from the real run, compared with its Gallina model and fed to the compiler model',
         'uuid generation is irrelevant to the observations',
     ]
 
@@ -176,13 +177,14 @@ class C01(core.Prop):
         if 'error' in obs or len(obs['sink']) != 1:
             behaviour = '(C01.CSegment nil None 0%nat (TProj 0%nat TNone) None nil)'
             table = f"(C01Compile.CTable {nodes} {assets} {visit} {cn(case['tail'])} None TNone)"
-            return f'(C01Compile.FCase {behaviour} {table})'
+            return f"(C01Each.ECase (C01Compile.FCase {behaviour} {table}) {cl([cn(i) for i in case.get('conn') or range(1, len(case['nodes']))], 'nat')})"
         commit = co(obs['committed'], lambda l: cl([cterm(t) for t in l], 'term'), 'list term')
         behaviour = (f"(C01.CSegment {nodes} {assets} {cn(case['tail'])} "
                      f"{cterm(obs['sink'][0])} {commit} {cl([cn(x) for x in obs['loads'] or []], 'nat')})")
         real = '(Some ' + cl([csym(s, case) for s in obs['table']], 'C01Compile.sym') + ')'
         table = f"(C01Compile.CTable {nodes} {assets} {visit} {cn(case['tail'])} {real} {cterm(obs['sink'][0])})"
-        return f'(C01Compile.FCase {behaviour} {table})'
+        conn = cl([cn(i) for i in case.get('conn') or range(1, len(case['nodes']))], 'nat')
+        return f'(C01Each.ECase (C01Compile.FCase {behaviour} {table}) {conn})'
 
     def oracle(self, case, obs):
         if 'error' in obs:
